@@ -17,6 +17,7 @@ Section Eval.
     match v with
     | VInt _ => TInt | VLong _ => TLong | VFloat _ => TFloat | VBit _ => TBit | VBool _ => TBool
     | VChar _ => TChar | VStr _ => TStr | VArr t _ => TArr t | VVoid => TVoid
+    | VObj _ c => TClass c
     end.
 
   Definition default_of (t : ty) : value :=
@@ -24,6 +25,7 @@ Section Eval.
     | TInt => VInt 0 | TLong => VLong 0 | TFloat => VFloat (f_of_Z O 0) | TBit => VBit false
     | TBool => VBool false | TChar => VChar Ascii.zero | TStr => VStr EmptyString
     | TVoid => VVoid | TArr t => VArr t []
+    | TClass c => VObj None c
     end.
 
   Definition b2z (b : bool) : Z := if b then 1 else 0.
@@ -138,6 +140,10 @@ Section Eval.
         match l, r with
         | VStr a, VStr b => Ok (VBool (if is_eq o then String.eqb a b else negb (String.eqb a b)))
         | VChar a, VChar b => Ok (VBool (if is_eq o then Ascii.eqb a b else negb (Ascii.eqb a b)))
+        | VObj a _, VObj b _ =>
+            let same := match a, b with
+                        | Some x, Some y => Nat.eqb x y | None, None => true | _, _ => false end in
+            Ok (VBool (if is_eq o then same else negb same))
         | _, _ =>
             match as_boolish l, as_boolish r with
             | Some a, Some b => Ok (VBool (if is_eq o then Bool.eqb a b else negb (Bool.eqb a b)))
@@ -205,7 +211,11 @@ Section Eval.
 
   (* storing into a declared slot: int widens to long, everything else must already fit *)
   Definition widen (t : ty) (v : value) : value :=
-    match t, v with TLong, VInt z => VLong z | _, _ => v end.
+    match t, v with
+    | TLong, VInt z => VLong z
+    | TClass c, VObj l _ => VObj l c          (* a reference takes the static class of the slot it is stored in *)
+    | _, _ => v
+    end.
 
   (* conversions applied to the elements of an array literal / an element assignment *)
   Definition elem_conv (elt : ty) (v : value) : res value :=
@@ -285,20 +295,213 @@ Section Eval.
     | s :: r => ((x, v) :: s) :: r
     end.
 
-  Record st := mkSt { s_env : env; s_out : list string }.      (* s_out: echoed lines, newest first *)
-  Definition with_env (s : st) (e : env) : st := mkSt e (s_out s).
+  (* ---- heap objects, program tables ---- *)
+  Record obj := mkObj { o_cls : string; o_fields : list (string * value); o_dead : bool }.
+
+  Record st := mkSt {
+    s_env : env;                      (* scopes of the running function/method/constructor only *)
+    s_out : list string;              (* echoed lines, newest first *)
+    s_frames : list env;              (* environments of the suspended callers (reference roots only) *)
+    s_temps : list value;             (* evaluated operands still pending in suspended expressions *)
+    s_heap : list obj;
+    s_statics : list (string * string * value);     (* (declaring class, field) -> value *)
+    s_ctx : string                    (* class whose member is running, "" outside classes *)
+  }.
+  Definition with_env (s : st) (e : env) : st :=
+    mkSt e (s_out s) (s_frames s) (s_temps s) (s_heap s) (s_statics s) (s_ctx s).
+  Definition with_out (s : st) (o : list string) : st :=
+    mkSt (s_env s) o (s_frames s) (s_temps s) (s_heap s) (s_statics s) (s_ctx s).
+  Definition with_temps (s : st) (t : list value) : st :=
+    mkSt (s_env s) (s_out s) (s_frames s) t (s_heap s) (s_statics s) (s_ctx s).
+  Definition with_heap (s : st) (h : list obj) : st :=
+    mkSt (s_env s) (s_out s) (s_frames s) (s_temps s) h (s_statics s) (s_ctx s).
+  Definition with_statics (s : st) (x : list (string * string * value)) : st :=
+    mkSt (s_env s) (s_out s) (s_frames s) (s_temps s) (s_heap s) x (s_ctx s).
   Definition push (s : st) : st := with_env s ([] :: s_env s).
   Definition pop (s : st) : st := with_env s (tl (s_env s)).
+  (* entering a callee: the caller's environment is parked (it stays a root, it is not visible) *)
+  Definition enter (s : st) (sc : scope) (ctx : string) : st :=
+    mkSt [sc] (s_out s) (s_env s :: s_frames s) (s_temps s) (s_heap s) (s_statics s) ctx.
+  Definition leave (caller callee : st) : st :=
+    mkSt (s_env caller) (s_out callee) (s_frames caller) (s_temps caller) (s_heap callee) (s_statics callee) (s_ctx caller).
+  Definition init_st : st := mkSt [] [] [] [] [] [] EmptyString.
 
   Inductive ctl := CNormal | CReturn (v : value).
 
   Variable fns : string -> option fdecl.
+  Variable cls : string -> option cdecl.
+  Variable depth : nat.               (* bound on the length of an inheritance chain (number of classes) *)
 
-  Definition assign_var (x : string) (v : value) (s : st) : res st :=
+  (* the class and its ancestors, most derived first *)
+  Fixpoint chain_from (k : nat) (c : string) : list cdecl :=
+    match k with
+    | 0%nat => []
+    | S k => match cls c with
+             | None => []
+             | Some cd => cd :: match cd_base cd with Some b => chain_from k b | None => [] end
+             end
+    end.
+  Definition chain (c : string) : list cdecl := chain_from depth c.
+
+  Fixpoint index_where {A} (p : A -> bool) (l : list A) : option nat :=
+    match l with
+    | [] => None
+    | a :: r => if p a then Some 0%nat else match index_where p r with Some k => Some (S k) | None => None end
+    end.
+  (* inheritance distance from c up to d *)
+  Definition dist (c d : string) : option nat := index_where (fun cd => String.eqb (cd_name cd) d) (chain c).
+
+  (* conversion cost of passing v where a parameter of type pt is declared: 0 exact, 1 int->long,
+     inheritance distance for references, 3 for the null literal *)
+  Definition arg_cost (pt : ty) (v : value) : option nat :=
+    match v with
+    | VObj _ stamp =>
+        match pt with
+        | TClass c => if String.eqb stamp EmptyString then Some 3%nat else dist stamp c
+        | _ => None
+        end
+    | _ => if ty_eqb pt (type_of v) then Some 0%nat
+           else match pt, v with TLong, VInt _ => Some 1%nat | _, _ => None end
+    end.
+  Fixpoint args_cost (pts : list ty) (vs : list value) : option nat :=
+    match pts, vs with
+    | [], [] => Some 0%nat
+    | p :: pr, v :: vr => match arg_cost p v, args_cost pr vr with
+                          | Some a, Some b => Some (a + b)%nat | _, _ => None end
+    | _, _ => None
+    end.
+
+  (* the unique candidate of minimal cost; None when there is none or a tie (ambiguous) *)
+  Fixpoint best {A} (l : list (A * nat)) : option (A * nat * bool) :=     (* candidate, cost, tie *)
+    match l with
+    | [] => None
+    | (a, c) :: r =>
+        match best r with
+        | None => Some (a, c, false)
+        | Some (b, d, tie) => if Nat.ltb c d then Some (a, c, false)
+                              else if Nat.eqb c d then Some (b, d, true) else Some (b, d, tie)
+        end
+    end.
+  Definition pick {A} (l : list (A * nat)) : option A :=
+    match best l with Some (a, _, false) => Some a | _ => None end.
+
+  Definition ptys (ps : list (ty * string)) : list ty := map fst ps.
+  Fixpoint tys_eqb (a b : list ty) : bool :=
+    match a, b with
+    | [], [] => true
+    | x :: a', y :: b' => ty_eqb x y && tys_eqb a' b'
+    | _, _ => false
+    end.
+
+  (* methods named m visible from a class, nearest declaration of each parameter list first *)
+  Fixpoint visible (ch : list cdecl) (m : string) (hidden : list (list ty)) : list (cdecl * meth) :=
+    match ch with
+    | [] => []
+    | cd :: r =>
+        let here := filter (fun md => String.eqb (md_name md) m &&
+                                      negb (existsb (tys_eqb (ptys (md_params md))) hidden)) (cd_meths cd) in
+        map (fun md => (cd, md)) here ++ visible r m (map (fun md => ptys (md_params md)) here ++ hidden)
+    end.
+  Definition resolve (stamp m : string) (vs : list value) : option (cdecl * meth) :=
+    pick (flat_map (fun cm => match args_cost (ptys (md_params (snd cm))) vs with
+                              | Some c => [(cm, c)] | None => [] end) (visible (chain stamp) m [])).
+  (* the most derived declaration of (m, parameter types) in the object's dynamic class *)
+  Definition dispatch (dyn m : string) (pt : list ty) : option (cdecl * meth) :=
+    match visible (chain dyn) m [] with
+    | l => find (fun cm => tys_eqb (ptys (md_params (snd cm))) pt) l
+    end.
+  Definition pick_ctor (cd : cdecl) (vs : list value) : option ctor :=
+    pick (flat_map (fun ct => match args_cost (ptys (ct_params ct)) vs with
+                              | Some c => [(ct, c)] | None => [] end) (cd_ctors cd)).
+
+  (* instance fields, base class first, declaration order *)
+  Definition inst_fields (c : string) : list field :=
+    flat_map (fun cd => filter (fun f => negb (fd_static f)) (cd_fields cd)) (rev (chain c)).
+  (* the class in c's chain that declares static field f *)
+  Definition static_owner (c f : string) : option string :=
+    match find (fun cd => existsb (fun fd => fd_static fd && String.eqb (fd_name fd) f) (cd_fields cd)) (chain c) with
+    | Some cd => Some (cd_name cd) | None => None
+    end.
+  Fixpoint st_find (c f : string) (l : list (string * string * value)) : option value :=
+    match l with
+    | [] => None
+    | (c', f', v) :: r => if String.eqb c c' && String.eqb f f' then Some v else st_find c f r
+    end.
+  Fixpoint st_set (c f : string) (v : value) (l : list (string * string * value)) : list (string * string * value) :=
+    match l with
+    | [] => [(c, f, v)]
+    | (c', f', w) :: r => if String.eqb c c' && String.eqb f f' then (c', f', v) :: r else (c', f', w) :: st_set c f v r
+    end.
+
+  Definition get_obj (s : st) (l : nat) : option obj := nth_error (s_heap s) l.
+  Fixpoint set_nth {A} (k : nat) (a : A) (l : list A) : list A :=
+    match l, k with
+    | [], _ => []
+    | _ :: r, 0%nat => a :: r
+    | x :: r, S k' => x :: set_nth k' a r
+    end.
+  Definition set_obj (s : st) (l : nat) (o : obj) : st := with_heap s (set_nth l o (s_heap s)).
+  Definition this_loc (s : st) : option nat :=
+    match lookup "this" (s_env s) with Some (VObj (Some l) _) => Some l | _ => None end.
+
+  Definition get_field (s : st) (l : nat) (f : string) : res value :=
+    match get_obj s l with
+    | Some o => if o_dead o then undoc "use of a destroyed object"
+                else match sc_find f (o_fields o) with Some v => Ok v | None => stuck "no such field" end
+    | None => stuck "dangling reference"
+    end.
+  Definition set_field (s : st) (l : nat) (f : string) (v : value) : res st :=
+    match get_obj s l with
+    | Some o => if o_dead o then undoc "use of a destroyed object"
+                else match sc_find f (o_fields o) with
+                     | Some old => Ok (set_obj s l (mkObj (o_cls o) (sc_set f (widen (type_of old) v) (o_fields o)) false))
+                     | None => stuck "no such field"
+                     end
+    | None => stuck "dangling reference"
+    end.
+
+  (* a bare name: the running body's own locals and parameters, then the fields of the enclosing
+     object, then the static fields of the enclosing class and its ancestors - never a caller's local *)
+  Definition read_name (x : string) (s : st) : res value :=
+    match lookup x (s_env s) with
+    | Some v => Ok v
+    | None =>
+        match (match this_loc s with
+               | Some l => match get_obj s l with
+                           | Some o => if o_dead o then None else sc_find x (o_fields o)
+                           | None => None end
+               | None => None end) with
+        | Some v => Ok v
+        | None =>
+            match static_owner (s_ctx s) x with
+            | Some c => match st_find c x (s_statics s) with Some v => Ok v | None => stuck "static" end
+            | None => stuck "undeclared name"
+            end
+        end
+    end.
+
+  Definition write_name (x : string) (v : value) (s : st) : res st :=
     match lookup x (s_env s) with
     | Some old => Ok (with_env s (update x (widen (type_of old) v) (s_env s)))
-    | None => stuck "assignment to an undeclared name"
+    | None =>
+        match (match this_loc s with
+               | Some l => match get_obj s l with
+                           | Some o => if o_dead o then None
+                                       else match sc_find x (o_fields o) with Some _ => Some l | None => None end
+                           | None => None end
+               | None => None end) with
+        | Some l => set_field s l x v
+        | None =>
+            match static_owner (s_ctx s) x with
+            | Some c => match st_find c x (s_statics s) with
+                        | Some old => Ok (with_statics s (st_set c x (widen (type_of old) v) (s_statics s)))
+                        | None => stuck "static" end
+            | None => stuck "assignment to an undeclared name"
+            end
+        end
     end.
+
+  Definition assign_var := write_name.
 
   Fixpoint bind_params (ps : list (ty * string)) (vs : list value) : option scope :=
     match ps, vs with
@@ -308,17 +511,39 @@ Section Eval.
     | _, _ => None
     end.
 
+  (* ---- reference counting: which objects are still referenced ---- *)
+  Definition val_refs (v : value) : list nat := match v with VObj (Some l) _ => [l] | _ => [] end.
+  Definition scope_refs (sc : scope) : list nat := flat_map (fun p => val_refs (snd p)) sc.
+  Definition env_refs (e : env) : list nat := flat_map scope_refs e.
+  Definition heap_refs (h : list obj) : list nat :=
+    flat_map (fun o => if o_dead o then [] else scope_refs (o_fields o)) h.
+  Definition all_refs (s : st) (extra : list value) : list nat :=
+    env_refs (s_env s) ++ flat_map env_refs (s_frames s) ++ flat_map val_refs (s_temps s)
+    ++ flat_map (fun t => val_refs (snd t)) (s_statics s) ++ heap_refs (s_heap s) ++ flat_map val_refs extra.
+  Definition has_dtor (c : string) : bool :=
+    existsb (fun cd => match cd_dtor cd with Some _ => true | None => false end) (chain c).
+  (* live objects nobody refers to *)
+  Definition unreferenced (s : st) (extra : list value) : list nat :=
+    let refs := all_refs s extra in
+    filter (fun l => match nth_error (s_heap s) l with
+                     | Some o => negb (o_dead o) && negb (existsb (Nat.eqb l) refs)
+                     | None => false end) (seq 0 (List.length (s_heap s))).
+
   (* sequencing helpers, generic in the one-step function so that they have their own lemmas *)
   Fixpoint eval_list (ev : st -> expr -> res (value * st)) (s : st) (es : list expr) : res (list value * st) :=
     match es with
     | [] => Ok ([], s)
-    | a :: r => do (v, s1) <- ev s a; do (vs, s2) <- eval_list ev s1 r; Ok (v :: vs, s2)
+    | a :: r => do (v, s1) <- ev s a;
+                (* the evaluated operand stays referenced while the remaining ones run *)
+                do (vs, s2) <- eval_list ev (with_temps s1 (v :: s_temps s1)) r; Ok (v :: vs, s2)
     end.
-  Fixpoint exec_list (ex : st -> stmt -> res (ctl * st)) (s : st) (ss : list stmt) : res (ctl * st) :=
+  Fixpoint exec_list (ex : st -> stmt -> res (ctl * st)) (post : ctl -> st -> res st)
+           (s : st) (ss : list stmt) : res (ctl * st) :=
     match ss with
     | [] => Ok (CNormal, s)
     | a :: r => do (c, s1) <- ex s a;
-                match c with CNormal => exec_list ex s1 r | CReturn _ => Ok (c, s1) end
+                do s2 <- post c s1;
+                match c with CNormal => exec_list ex post s2 r | CReturn _ => Ok (c, s2) end
     end.
 
   (* one unfolding of the interpreter, over the evaluators [ev]/[ex] used for sub-terms *)
@@ -326,14 +551,140 @@ Section Eval.
     Variable ev : st -> expr -> res (value * st).
     Variable ex : st -> stmt -> res (ctl * st).
 
+    (* destructors run derived-first; afterwards the object is dead and its fields are dropped *)
+    Fixpoint run_dtors (ch : list cdecl) (l : nat) (s : st) : res st :=
+      match ch with
+      | [] => Ok s
+      | cd :: r =>
+          do s1 <- match cd_dtor cd with
+                   | None => Ok s
+                   | Some body =>
+                       let s0 := enter s [("this"%string, VObj (Some l) (cd_name cd))] (cd_name cd) in
+                       do (_, s') <- exec_list ex (fun _ x => Ok x) s0 body;
+                       Ok (leave s s')
+                   end;
+          run_dtors r l s1
+      end.
+    Definition destroy_obj (l : nat) (s : st) : res st :=
+      match get_obj s l with
+      | None => Ok s
+      | Some o =>
+          if o_dead o then Ok s else
+          (* marked first, as the evaluator does, so that a destructor cannot destroy it again *)
+          let s0 := set_obj s l (mkObj (o_cls o) (o_fields o) false) in
+          do s1 <- run_dtors (chain (o_cls o)) l s0;
+          match get_obj s1 l with
+          | Some o1 => Ok (set_obj s1 l (mkObj (o_cls o1) [] true))
+          | None => Ok s1
+          end
+      end.
+    (* release every object whose last reference has gone, cascading through their fields.  When two
+       objects with user destructors die at the same moment the order is not documented. *)
+    Fixpoint sweep (k : nat) (extra : list value) (s : st) : res st :=
+      match k with
+      | 0%nat => Ok s
+      | S k =>
+          match unreferenced s extra with
+          | [] => Ok s
+          | l :: others =>
+              let dt := filter (fun x => match nth_error (s_heap s) x with
+                                         | Some o => has_dtor (o_cls o) | None => false end) (l :: others) in
+              if Nat.ltb 1 (List.length dt) then undoc "two objects with destructors released together"
+              else
+                let first := match dt with d :: _ => d | [] => l end in
+                do s1 <- destroy_obj first s; sweep k extra s1
+          end
+      end.
+    Definition sweep_all (extra : list value) (s : st) : res st :=
+      sweep (S (S (List.length (s_heap s)))) extra s.
+    Definition post_stmt (c : ctl) (s : st) : res st :=
+      sweep_all (match c with CReturn v => [v] | CNormal => [] end) s.
+
+    Definition execs := exec_list ex post_stmt.
+    Definition evals (s : st) (es : list expr) : res (list value * st) :=
+      (* operands are parked in s_temps while the list is evaluated; restored afterwards *)
+      do (vs, s1) <- eval_list ev s es; Ok (vs, with_temps s1 (s_temps s)).
+
+    (* run a body in a fresh frame and come back to the caller *)
+    Definition call_body (s : st) (sc : scope) (ctx : string) (ret : ty) (args : list value) (body : list stmt)
+      : res (value * st) :=
+      let s0 := enter (with_temps s (args ++ s_temps s)) sc ctx in
+      do (c, s1) <- execs s0 body;
+      let v := match c with CReturn v => widen ret v | CNormal => VVoid end in
+      let s2 := leave s s1 in
+      (* the callee's locals are gone: whatever only they referred to is released now *)
+      do s3 <- sweep_all [v] s2;
+      Ok (v, s3).
+
+    Definition run_inits (cd : cdecl) (l : nat) (s : st) : res st :=
+      fold_left (fun acc fd =>
+                   do s0 <- acc;
+                   if fd_static fd then Ok s0 else
+                   match fd_init fd with
+                   | None => Ok s0
+                   | Some a =>
+                       (* an initialiser sees the object's fields, not the constructor's parameters *)
+                       let s1 := enter s0 [("this"%string, VObj (Some l) (cd_name cd))] (cd_name cd) in
+                       do (v, s2) <- ev s1 a;
+                       let s3 := leave s0 s2 in
+                       set_field s3 l (fd_name fd) v
+                   end) (cd_fields cd) (Ok s).
+
+    (* base constructor, then this class's field initialisers, then its constructor body *)
+    Fixpoint ctor_chain (ch : list cdecl) (l : nat) (ct : ctor) (args : list value) (s : st) : res st :=
+      match ch with
+      | [] => Ok s
+      | cd :: rest =>
+          match bind_params (ct_params ct) args with
+          | None => stuck "constructor arity"
+          | Some sc =>
+              let s0 := enter (with_temps s (args ++ s_temps s)) (("this"%string, VObj (Some l) (cd_name cd)) :: sc) (cd_name cd) in
+              do (sargs, s1) <- match ct_super ct with
+                                | Some es => evals s0 es
+                                | None => Ok ([], s0)
+                                end;
+              do s2 <- match rest with
+                       | [] => Ok s1
+                       | base :: _ =>
+                           match pick_ctor base sargs with
+                           | None => stuck "no matching base constructor"
+                           | Some bct => ctor_chain rest l bct sargs s1
+                           end
+                       end;
+              do s3 <- run_inits cd l s2;
+              do s4 <- (if ct_default ct then
+                          fold_left (fun acc p =>
+                                       do sx <- acc;
+                                       match get_obj sx l with
+                                       | Some o => match sc_find (snd (fst p)) (o_fields o) with
+                                                   | Some _ => set_field sx l (snd (fst p)) (snd p)
+                                                   | None => Ok sx end
+                                       | None => Ok sx
+                                       end) (combine (ct_params ct) args) (Ok s3)
+                        else Ok s3);
+              do (_, s5) <- execs s4 (ct_body ct);
+              let s6 := leave s s5 in
+              sweep_all [VObj (Some l) (cd_name cd)] s6
+          end
+      end.
+
+    Definition invoke (s : st) (recv : option nat) (cm : cdecl * meth) (args : list value) : res (value * st) :=
+      let (cd, md) := cm in
+      match bind_params (md_params md) args with
+      | None => stuck "arity"
+      | Some sc =>
+          let sc' := match recv with Some l => ("this"%string, VObj (Some l) (cd_name cd)) :: sc | None => sc end in
+          let keep := match recv with Some l => [VObj (Some l) (cd_name cd)] | None => [] end in
+          call_body s sc' (cd_name cd) (md_ret md) (keep ++ args) (md_body md)
+      end.
+
     Definition eval_step (s : st) (e : expr) : res (value * st) :=
-      let evals := eval_list ev in
-      let execs := exec_list ex in
       match e with
       | ELit l => Ok (lit_eval l, s)
-      | EVar x => match lookup x (s_env s) with Some v => Ok (v, s) | None => stuck "undeclared name" end
-      | EBin o a b => do (va, s1) <- ev s a; do (vb, s2) <- ev s1 b;
-                      do v <- binop_eval o va vb; Ok (v, s2)
+      | EVar x => do v <- read_name x s; Ok (v, s)
+      | EBin o a b => do (va, s1) <- ev s a;
+                      do (vb, s2) <- ev (with_temps s1 (va :: s_temps s1)) b;
+                      do v <- binop_eval o va vb; Ok (v, with_temps s2 (s_temps s))
       | EUn o a => do (va, s1) <- ev s a; do v <- unop_eval o va; Ok (v, s1)
       | ECast t a => do (va, s1) <- ev s a; do v <- cast_eval t va; Ok (v, s1)
       | EIndex a i =>
@@ -352,35 +703,135 @@ Section Eval.
           end
       | ECall f args =>
           match fns f with
-          | None => stuck "unknown function"
           | Some fd =>
               do (vs, s1) <- evals s args;
               match bind_params (fn_params fd) vs with
               | None => stuck "arity"
               | Some sc =>
                   (* lexical scoping: the callee sees its parameters and nothing of the caller *)
-                  do (c, s2) <- execs (mkSt [sc] (s_out s1)) (fn_body fd);
-                  let s3 := mkSt (s_env s1) (s_out s2) in
-                  match c with
-                  | CReturn v => Ok (widen (fn_ret fd) v, s3)
-                  | CNormal => Ok (VVoid, s3)
+                  call_body s1 sc EmptyString (fn_ret fd) vs (fn_body fd)
+              end
+          | None =>
+              (* inside a class a bare call names a method of the enclosing class: this.f(args) *)
+              do (vs, s1) <- evals s args;
+              match this_loc s1 with
+              | Some l =>
+                  match get_obj s1 l, resolve (s_ctx s1) f vs with
+                  | Some o, Some (cd, md) =>
+                      if md_static md then invoke s1 None (cd, md) vs
+                      else if md_virtual md then
+                        match dispatch (o_cls o) f (ptys (md_params md)) with
+                        | Some cm => invoke s1 (Some l) cm vs
+                        | None => stuck "dispatch"
+                        end
+                      else invoke s1 (Some l) (cd, md) vs
+                  | _, _ => stuck "unknown function"
+                  end
+              | None =>
+                  match resolve (s_ctx s1) f vs with
+                  | Some (cd, md) => if md_static md then invoke s1 None (cd, md) vs else stuck "instance call in static context"
+                  | None => stuck "unknown function"
                   end
               end
           end
       | EPost x inc =>
-          match lookup x (s_env s) with
-          | Some (VInt z) =>
-              Ok (VInt z, with_env s (update x (VInt (wrap32 (if inc then z + 1 else z - 1))) (s_env s)))
-          | Some (VLong z) =>
-              do nv <- long_res (if inc then z + 1 else z - 1); Ok (VLong z, with_env s (update x nv (s_env s)))
+          do old <- read_name x s;
+          match old with
+          | VInt z => do s1 <- write_name x (VInt (wrap32 (if inc then z + 1 else z - 1))) s; Ok (VInt z, s1)
+          | VLong z => do nv <- long_res (if inc then z + 1 else z - 1);
+                       do s1 <- write_name x nv s; Ok (VLong z, s1)
           | _ => stuck "postfix"
           end
-      | EAssign x a => do (v, s1) <- ev s a; do s2 <- assign_var x v s1; Ok (v, s2)
+      | EAssign x a => do (v, s1) <- ev s a; do s2 <- write_name x v s1; Ok (v, s2)
+      | ENew c args =>
+          match cls c with
+          | None => stuck "unknown class"
+          | Some cd =>
+              do (vs, s1) <- evals s args;
+              match pick_ctor cd vs with
+              | None => stuck "no matching constructor"
+              | Some ct =>
+                  let l := List.length (s_heap s1) in
+                  let o := mkObj c (map (fun fd => (fd_name fd, default_of (fd_ty fd))) (inst_fields c)) false in
+                  let s2 := with_heap s1 (s_heap s1 ++ [o]) in
+                  do s3 <- ctor_chain (chain c) l ct vs s2;
+                  Ok (VObj (Some l) c, s3)
+              end
+          end
+      | EField a f =>
+          do (va, s1) <- ev s a;
+          match va with
+          | VObj (Some l) _ => do v <- get_field s1 l f; Ok (v, s1)
+          | VObj None _ => Err RNull
+          | _ => stuck "member access on a non-object"
+          end
+      | EThis => match lookup "this" (s_env s) with Some v => Ok (v, s) | None => stuck "this" end
+      | ENull => Ok (VObj None EmptyString, s)
+      | EMCall a m args =>
+          do (va, s1) <- ev s a;
+          do (vs, s2) <- evals (with_temps s1 (va :: s_temps s1)) args;
+          let s2 := with_temps s2 (s_temps s) in
+          match va with
+          | VObj (Some l) stamp =>
+              match get_obj s2 l, resolve stamp m vs with
+              | Some o, Some (cd, md) =>
+                  if o_dead o then undoc "use of a destroyed object" else
+                  if md_static md then invoke s2 None (cd, md) vs
+                  else if md_virtual md then
+                    match dispatch (o_cls o) m (ptys (md_params md)) with
+                    | Some cm => invoke s2 (Some l) cm vs
+                    | None => stuck "dispatch"
+                    end
+                  else invoke s2 (Some l) (cd, md) vs
+              | _, _ => stuck "no such method"
+              end
+          | VObj None _ => Err RNull
+          | _ => stuck "call on a non-object"
+          end
+      | ESuperCall m args =>
+          do (vs, s1) <- evals s args;
+          match this_loc s1, cls (s_ctx s1) with
+          | Some l, Some cd =>
+              match cd_base cd with
+              | Some b => match resolve b m vs with
+                          | Some cm => invoke s1 (Some l) cm vs        (* the base version, no virtual dispatch *)
+                          | None => stuck "no such base method"
+                          end
+              | None => stuck "super without a base"
+              end
+          | _, _ => stuck "super outside a method"
+          end
+      | ESCall c m args =>
+          do (vs, s1) <- evals s args;
+          match resolve c m vs with
+          | Some (cd, md) => if md_static md then invoke s1 None (cd, md) vs else stuck "instance method called on a type"
+          | None => stuck "no such static method"
+          end
+      | ESField c f =>
+          match static_owner c f with
+          | Some o => match st_find o f (s_statics s) with Some v => Ok (v, s) | None => stuck "static" end
+          | None => stuck "no such static field"
+          end
+      | EFieldSet a f b =>
+          do (va, s1) <- ev s a;
+          do (vb, s2) <- ev (with_temps s1 (va :: s_temps s1)) b;
+          let s2 := with_temps s2 (s_temps s) in
+          match va with
+          | VObj (Some l) _ => do s3 <- set_field s2 l f vb; Ok (vb, s3)
+          | VObj None _ => Err RNull
+          | _ => stuck "member assignment on a non-object"
+          end
+      | ESFieldSet c f b =>
+          do (vb, s1) <- ev s b;
+          match static_owner c f with
+          | Some o => match st_find o f (s_statics s1) with
+                      | Some old => Ok (vb, with_statics s1 (st_set o f (widen (type_of old) vb) (s_statics s1)))
+                      | None => stuck "static" end
+          | None => stuck "no such static field"
+          end
       end.
 
     Definition exec_step (s : st) (c : stmt) : res (ctl * st) :=
-      let evals := eval_list ev in
-      let execs := exec_list ex in
       match c with
       | SDecl _ t x init =>
           match init with
@@ -413,22 +864,25 @@ Section Eval.
               do (v, s2) <- ev s1 a;
               Ok (CNormal, with_env s2 (declare x v (s_env s2)))
           end
-      | SAssign x a => do (v, s1) <- ev s a; do s2 <- assign_var x v s1; Ok (CNormal, s2)
+      | SAssign x a => do (v, s1) <- ev s a; do s2 <- write_name x v s1; Ok (CNormal, s2)
       | SArrAssign x i a =>
-          match lookup x (s_env s) with
-          | Some (VArr elt l) =>
+          do arr <- read_name x s;
+          match arr with
+          | VArr _ _ =>
               do (vi, s1) <- ev s i;
               match index_of vi with
               | None => stuck "index"
               | Some k =>
                   do (v, s2) <- ev s1 a;
                   (* the array is re-read after the operands ran, as the evaluator does *)
-                  match lookup x (s_env s2) with
-                  | Some (VArr elt2 l2) =>
+                  do arr2 <- read_name x s2;
+                  match arr2 with
+                  | VArr elt2 l2 =>
                       if (k <? 0) || (Z.of_nat (List.length l2) <=? k)
                       then Err (RIndex k (Z.of_nat (List.length l2)))
                       else do cv <- elem_conv elt2 v;
-                           Ok (CNormal, with_env s2 (update x (VArr elt2 (firstn (Z.to_nat k) l2 ++ cv :: skipn (S (Z.to_nat k)) l2)) (s_env s2)))
+                           do s3 <- write_name x (VArr elt2 (firstn (Z.to_nat k) l2 ++ cv :: skipn (S (Z.to_nat k)) l2)) s2;
+                           Ok (CNormal, s3)
                   | _ => stuck "array assignment"
                   end
               end
@@ -452,13 +906,25 @@ Section Eval.
           let s0 := push s in
           do (k0, s1) <- match init with Some i => ex s0 i | None => Ok (CNormal, s0) end;
           do (k, s2) <- ex s1 (SWhile (match c with Some c' => c' | None => ELit (LBool true) end)
-                                          (SBlock (body :: match step with Some st' => [st'] | None => [] end)));
-          Ok (k, pop s2)
-      | SEcho a => do (v, s1) <- ev s a; Ok (CNormal, mkSt (s_env s1) (show v :: s_out s1))
+                                      (SBlock (body :: match step with Some st' => [st'] | None => [] end)));
+          let s3 := pop s2 in
+          do s4 <- post_stmt k s3; Ok (k, s4)
+      | SEcho a => do (v, s1) <- ev s a; Ok (CNormal, with_out s1 (show v :: s_out s1))
       | SReturn None => Ok (CReturn VVoid, s)
       | SReturn (Some a) => do (v, s1) <- ev s a; Ok (CReturn v, s1)
       | SExpr a => do (_, s1) <- ev s a; Ok (CNormal, s1)
-      | SBlock ss => do (k, s1) <- execs (push s) ss; Ok (k, pop s1)
+      | SBlock ss =>
+          do (k, s1) <- execs (push s) ss;
+          let s2 := pop s1 in
+          (* leaving the block drops its variables: objects only they referred to are released *)
+          do s3 <- post_stmt k s2; Ok (k, s3)
+      | SDestroy a =>
+          do (v, s1) <- ev s a;
+          match v with
+          | VObj (Some l) _ => do s2 <- destroy_obj l s1; Ok (CNormal, s2)
+          | VObj None _ => Ok (CNormal, s1)
+          | _ => stuck "destroy of a non-object"
+          end
       end.
   End Step.
 
@@ -481,14 +947,32 @@ Section Eval.
 End Eval.
 
 Definition find_fn (p : program) (f : string) : option fdecl :=
-  find (fun d => String.eqb (fn_name d) f) p.
+  find (fun d => String.eqb (fn_name d) f) (p_fns p).
+Definition find_class (p : program) (c : string) : option cdecl :=
+  find (fun d => String.eqb (cd_name d) c) (p_classes p).
+
+(* static fields are initialised (in a frame of their own class) before main runs *)
+Definition init_statics {F} (O : fops F) (fuel : nat) (p : program) : res (st (F:=F)) :=
+  fold_left (fun acc cd =>
+    fold_left (fun acc fd =>
+      do s <- acc;
+      if fd_static fd then
+        match fd_init fd with
+        | Some a =>
+            let s1 := enter s [] (cd_name cd) in
+            do (v, s2) <- eval O (find_fn p) (find_class p) (List.length (p_classes p)) fuel s1 a;
+            Ok (with_statics (leave s s2) (s_statics s2 ++ [(cd_name cd, fd_name fd, widen (fd_ty fd) v)]))
+        | None => Ok (with_statics s (s_statics s ++ [(cd_name cd, fd_name fd, default_of O (fd_ty fd))]))
+        end
+      else Ok s) (cd_fields cd) acc) (p_classes p) (Ok init_st).
 
 (* A run: call main() with no arguments; the observable is the echoed lines (oldest first) and
    the way the run ended. *)
 Inductive outcome := Finished | Failed (e : rerr) | Diverged.
 
 Definition run {F} (O : fops F) (fuel : nat) (p : program) : list string * outcome :=
-  match eval O (find_fn p) fuel (mkSt [] []) (ECall "main" []) with
+  match (do s0 <- init_statics O fuel p;
+         eval O (find_fn p) (find_class p) (List.length (p_classes p)) fuel s0 (ECall "main" [])) with
   | Ok (_, s) => (rev (s_out s), Finished)
   | Err e => ([], Failed e)
   | OutOfFuel => ([], Diverged)
